@@ -19,7 +19,7 @@ NOT decided: that relinking in the two-child erase case and in rotations preserv
 order (heap-shape reasoning); hint validity.
 """
 from .. import astfacts, listrules, treewalk, typestate
-from ..facts import Prover, edge_atoms, _k, strip_bitcasts
+from ..facts import Prover, edge_atoms, _k, strip_bitcasts, phi_leaves
 from ..ir import const_int, resolve_addr, unit_step
 from .util import floc
 
@@ -121,6 +121,17 @@ def run(m, rep, tier):
     else:
         check_find_result(m, f, w6)
 
+    # ---- W9: (function pointer, context) pairing ---------------------------------------------
+    from .util import check_callback_context
+    _cb = rep.rule('W9', 'every call through a caller-supplied function pointer passes the context supplied with it', floor=1)
+    check_callback_context(m, _cb, ('bintree.c', 'rbtree.c', 'heap.c'))
+
+    # ---- W8: swap completeness ------------------------------------------------------------
+    from .util import check_swap_complete
+    _sw = rep.rule('W8', 'swap exchanges every member of the two trees (root, size, offset, comparison function and its context)', floor=3)
+    for _n in ('cstl_bintree_swap', 'cstl_rbtree_swap', 'cstl_heap_swap'):
+        check_swap_complete(m, _n, _sw)
+
 
 def check_binding(m, w, enums, rule):
     pf = m.pfn('cstl_bintree_foreach')
@@ -129,49 +140,77 @@ def check_binding(m, w, enums, rule):
         rule.undecided('cstl_bintree_foreach', 'function, walker or direction enumerators not found')
         return
     bad = []
-    calls = [c for c in pf.calls(w.name)]
-    sw = [t for t in pf.all_insts() if t.op == 'switch']
-    bound = {}
-    for c in calls:
-        sel = tuple(selector_field(m, o[1:]) if isinstance(o, str) and o.startswith('@') else None for o in c.o[3:5])
-        for t in sw:
-            for cv, target in t.x['cases']:
-                tb = pf.bb[target]
-                if tb is c.block or pf.dominates_block(tb, c.block):
-                    bound[cv] = (sel, c)
+    sites = treewalk.walker_calls(m, pf, w)
+    if not sites:
+        rule.undecided('cstl_bintree_foreach', 'no call that reaches the walker found')
+        return
+    pv = Prover(pf)
+    dirkeys = {'$3'} | {i.ref for i in pf.all_insts() if i.op in ('zext', 'sext', 'trunc') and i.o[0] == '$3'}
+    bound = {fwd: [set(), set()], rev: [set(), set()]}
+    for st in sites:
+        c = st.call
+        here = set(pv.fc.block_facts(c.block))
+        for pos, (kind, *val) in enumerate(st.args[3:5]):
+            if kind != 'v':
+                bad.append('a child selector of the walk at %s is computed inside %s()' % (c.loc(), st.helper.name))
+                continue
+            for leaf, lb, lf in phi_leaves(pf, pv.fc, val[0]):
+                fs = here | set(lf or ())
+                sel = selector_field(m, leaf[1:]) if isinstance(leaf, str) and leaf.startswith('@') else None
+                for d in (fwd, rev):
+                    excluded = any((op == 'eq' and x in dirkeys and const_int(y) is not None and const_int(y) != d)
+                                   or (op == 'ne' and x in dirkeys and const_int(y) == d) for (op, x, y) in fs)
+                    if not excluded:
+                        bound[d][pos].add(sel)
         # node = the tree's root
-        root = pf.get(strip_bitcasts(pf, c.o[0]))
-        if root is None or root.op != 'load' or resolve_addr(pf, root.o[0]).fsteps[-1:] != (('cstl_bintree', 'root'),):
+        kind, *val = st.args[0]
+        if kind == 'v':
+            root = pf.get(strip_bitcasts(pf, val[0]))
+            okroot = root is not None and root.op == 'load' and resolve_addr(pf, root.o[0]).fsteps[-1:] == (('cstl_bintree', 'root'),) \
+                and resolve_addr(pf, root.o[0]).root == '$0'
+        else:
+            h, hv = val
+            root = h.get(hv) if isinstance(hv, str) else None
+            okroot = False
+            if root is not None and root.op == 'load':
+                a = resolve_addr(h, root.o[0])
+                if a.fsteps[-1:] == (('cstl_bintree', 'root'),) and a.root.startswith('$') and a.root[1:].isdigit() and int(a.root[1:]) < len(c.o):
+                    okroot = strip_bitcasts(pf, c.o[int(a.root[1:])]) == '$0'
+        if not okroot:
             bad.append('the walk at %s does not start at the tree\'s root' % c.loc())
-    if bound.get(fwd, (None,))[0] != ('l', 'r'):
-        bad.append('direction FWD does not walk (left, right): %s' % (bound.get(fwd, (None,))[0],))
-    if bound.get(rev, (None,))[0] != ('r', 'l'):
-        bad.append('direction REV does not walk (right, left): %s' % (bound.get(rev, (None,))[0],))
+        if not st.result_ok:
+            bad.append('%s() returns something other than the walk\'s result or 0' % st.helper.name)
+
+    def show(b):
+        return tuple('/'.join(sorted(str(x) for x in p)) or '-' for p in b)
+    if bound[fwd] != [{'l'}, {'r'}]:
+        bad.append('direction FWD does not walk (left, right): %s' % (show(bound[fwd]),))
+    if bound[rev] != [{'r'}, {'l'}]:
+        bad.append('direction REV does not walk (right, left): %s' % (show(bound[rev]),))
     # return value: the walker's result on those paths, 0 otherwise
+    refs = {st.call.ref for st in sites}
     for r in pf.returns():
-        v = pf.get(r.o[0]) if r.o else None
-        leaves = []
-        if v is not None and v.op == 'phi':
-            leaves = list(v.o)
-        elif r.o:
-            leaves = [r.o[0]]
         seen_calls = set()
         for lf in _phi_leaves(pf, r.o[0]) if r.o else []:
-            if lf in [c.ref for c in calls]:
+            if lf in refs:
                 seen_calls.add(lf)
             elif const_int(lf) != 0:
                 bad.append('the value returned at %s (%s) is neither the walker\'s result nor 0' % (r.loc(), lf))
-        if {c.ref for c in calls} - seen_calls:
-            bad.append('the result of a walk is not returned')
+    allret = set()
+    for r in pf.returns():
+        allret |= {lf for lf in (_phi_leaves(pf, r.o[0]) if r.o else [])}
+    if refs - allret:
+        bad.append('the result of a walk is not returned')
     if bad:
         rule.violation('cstl_bintree_foreach', '; '.join(sorted(set(bad))[:4]), floc(m, pf), {})
     else:
         rule.ok('cstl_bintree_foreach', 'FWD -> (l, r), REV -> (r, l); returns the walker\'s result, else 0', floc(m, pf))
     # the user-visit adapter handed to the walker
     ad = None
-    for c in calls:
-        if isinstance(c.o[1], str) and c.o[1].startswith('@'):
-            ad = m.ifn(c.o[1][1:])
+    for st in sites:
+        kind, *val = st.args[1]
+        if kind == 'v' and isinstance(val[0], str) and val[0].startswith('@'):
+            ad = m.ifn(val[0][1:])
     if ad is None:
         rule.undecided('foreach-adapter', 'the visit adapter was not found')
         return
@@ -294,8 +333,7 @@ def check_insert_slot(m, f, rule):
         ok = False
         for (op, x, y) in pv.facts_at(s):
             if op == 'eq' and y == 'null':
-                xi = f.get(x)
-                if xi is not None and xi.op == 'load' and strip_bitcasts(f, xi.o[0]) == slot:
+                if _reads_slot(f, x, slot):
                     ok = True
         if not ok:
             bad.append('the new node is stored at %s into a link that was not just read as NULL: an existing subtree hanging there would be cut out of the '
@@ -306,31 +344,155 @@ def check_insert_slot(m, f, rule):
         rule.ok('cstl_bintree_insert', '%d link store(s), each into a slot read as NULL' % len(links), floc(m, f))
 
 
+def _reads_slot(f, x, slot, depth=0):
+    """x is the value loaded from `slot`: directly, or as loop-carried pair (x and slot are phis of the same block
+    and, edge by edge, x's incoming value is read from slot's incoming address)"""
+    xi = f.get(x) if isinstance(x, str) else None
+    if xi is None or depth > 3:
+        return False
+    if xi.op == 'load':
+        return strip_bitcasts(f, xi.o[0]) == slot
+    si = f.get(slot) if isinstance(slot, str) else None
+    if xi.op == 'phi' and si is not None and si.op == 'phi' and si.block is xi.block:
+        sm = dict(zip(si.x['bb'], si.o))
+        return all(bb in sm and _reads_slot(f, strip_bitcasts(f, v), strip_bitcasts(f, sm[bb]), depth + 1)
+                   for v, bb in zip(xi.o, xi.x['bb']))
+    return False
+
+
+TREE_STRUCTS = ('cstl_bintree_node', 'cstl_bintree', 'cstl_rbtree_node', 'cstl_rbtree')
+
+
+def _tree_role(m, name):
+    """role of a callee by effect (on its fully inlined body): 'finder' compares through the tree's cmp pointer and
+    never writes a node or tree field; 'unlinker' writes node links / the size; None otherwise"""
+    g = m.ifn(name)
+    if g is None:
+        return None
+    stores = has_cmp = False
+    for i in g.all_insts():
+        if i.op == 'store':
+            a = resolve_addr(g, i.o[1])
+            if a.fsteps and a.fsteps[-1][0] in TREE_STRUCTS:
+                stores = True
+        if i.op == 'call' and i.callee is None and i.x.get('fty') == CMP_FTY:
+            has_cmp = True
+    if stores:
+        return 'unlinker'
+    if has_cmp:
+        return 'finder'
+    return None
+
+
+def _pure_helper(m, name):
+    g = m.ifn(name)
+    return g is not None and not any(i.op == 'store' or (i.op == 'call' and not i.is_intrinsic()) for i in g.all_insts())
+
+
+def _derived(m, f, v, root, depth=0):
+    """v is `root` converted by pointer arithmetic, casts, pure helpers, or a merge of such values and NULL"""
+    v = strip_bitcasts(f, v) if isinstance(v, str) else v
+    if v == root:
+        return True
+    i = f.get(v) if isinstance(v, str) else None
+    if i is None or depth > 8:
+        return False
+    if i.op in ('getelementptr', 'bitcast', 'ptrtoint', 'inttoptr'):
+        return _derived(m, f, i.o[0], root, depth + 1)
+    if i.op in ('add', 'sub'):
+        # element <-> node: the address plus / minus the tree's stored offset (or a constant)
+        return _derived(m, f, i.o[0], root, depth + 1) or (i.op == 'add' and _derived(m, f, i.o[1], root, depth + 1))
+    if i.op == 'call' and i.callee and _pure_helper(m, i.callee):
+        return any(_derived(m, f, o, root, depth + 1) for o in i.o)
+    if i.op in ('phi', 'select'):
+        ops = i.o if i.op == 'phi' else i.o[1:]
+        ls = [o for o in ops if o != 'null' and const_int(o) != 0]
+        return bool(ls) and all(_derived(m, f, o, root, depth + 1) for o in ls)
+    return False
+
+
+def _ptr_base(f, ins, depth=0):
+    """the pointer a converted address was computed from: inttoptr(ptrtoint(p) +/- off), gep(p, ...)"""
+    if depth > 6:
+        return None
+    if ins.op == 'getelementptr':
+        return strip_bitcasts(f, ins.o[0])
+    if ins.op == 'inttoptr':
+        a = f.get(ins.o[0])
+        while a is not None and a.op in ('add', 'sub'):
+            nxt = None
+            for o in (a.o if a.op == 'add' else a.o[:1]):
+                oi = f.get(o) if isinstance(o, str) else None
+                if oi is not None and oi.op == 'ptrtoint':
+                    return strip_bitcasts(f, oi.o[0])
+                if oi is not None and oi.op in ('add', 'sub'):
+                    nxt = oi
+            a = nxt
+        if a is not None and a.op == 'ptrtoint':
+            return strip_bitcasts(f, a.o[0])
+    return None
+
+
 def check_erase(m, f, rule):
-    pv = Prover(f)
-    finds = [c for c in f.all_insts() if c.op == 'call' and c.callee in ('cstl_bintree_find', 'cstl_rbtree_find')]
+    calls = [c for c in f.all_insts() if c.op == 'call' and c.callee and not c.is_intrinsic()]
+    finds = [c for c in calls if _tree_role(m, c.callee) == 'finder']
     bad = []
     if len(finds) != 1:
-        rule.undecided(f.name, '%d find calls' % len(finds), floc(m, f))
+        rule.undecided(f.name, '%d calls of a lookup routine (compares through the tree, writes nothing)' % len(finds), floc(m, f))
         return
     p = finds[0]
-    unl = [c for c in f.all_insts() if c.op == 'call' and c.callee and c is not p and not c.is_intrinsic() and
-           any(isinstance(o, str) and (strip_bitcasts(f, o) == p.ref or listrules.derived_from(f, strip_bitcasts(f, o), p.ref) or _via_helper(f, o, p.ref)) for o in c.o)]
-    unl = [c for c in unl if c.callee.endswith('_erase') or 'erase' in c.callee]
+    pk = _k(p.ref)
+    unl = [c for c in calls if _tree_role(m, c.callee) == 'unlinker']
     if not unl:
         bad.append('the node that find returned is never handed to the unlink routine')
     for c in unl:
-        if not pv.prove_at(('ne', p.ref, 'null'), c):
-            bad.append('the unlink at %s runs even when find returned NULL' % c.loc())
-    for r in f.returns():
-        if not r.o or strip_bitcasts(f, r.o[0]) != p.ref:
-            bad.append('erase does not return the pointer find produced (return at %s)' % r.loc())
-    if p.o[1] != '$1' or p.o[0] != '$0' and resolve_addr(f, p.o[0]).root != '$0':
+        if not any(isinstance(o, str) and _derived(m, f, o, p.ref) for o in c.o[1:]):
+            bad.append('the node unlinked at %s is not the one find returned' % c.loc())
+    if not (p.o[0] == '$0' or resolve_addr(f, p.o[0]).root == '$0') or not _derived(m, f, p.o[1], '$1'):
         bad.append('find is not asked about the caller\'s probe in the caller\'s tree')
+    public = p.callee in m.header_functions()
+
+    def transfer(ins, n, ps):
+        if ins.op == 'call' and ins in unl:
+            if ps.knows(('ne', pk, 'null')) is not True:
+                bad.append('the unlink at %s runs even when find returned NULL' % ins.loc())
+            return min(n + 1, 2)
+        if ins.op in ('inttoptr', 'getelementptr'):
+            # element <-> node conversion: arithmetic inside an object never yields NULL (C11 6.5.6); the library's
+            # own `find() != NULL` test relies on the same thing
+            base = _ptr_base(f, ins)
+            if base is not None and ps.knows(('ne', _k(base), 'null')) is True:
+                return typestate.With(n, atoms=[('ne', _k(ins.ref), 'null')])
+        return n
+    try:
+        res = typestate.run(f, 0, transfer, limit=20000)
+    except typestate.Limit as e:
+        rule.undecided(f.name, str(e), floc(m, f))
+        return
+    if not res.exits:
+        rule.undecided(f.name, 'no return reached', floc(m, f))
+        return
+    for r, ps in res.exits:
+        rv = typestate.value_of(f, ps, r.o[0]) if r.o else None
+        found = ps.knows(('ne', pk, 'null'))
+        if found is True:
+            if ps.auto != 1:
+                bad.append('a found node is unlinked %d time(s) on a path to the return at %s' % (ps.auto, r.loc()))
+            same = strip_bitcasts(f, rv) == p.ref if isinstance(rv, str) else False
+            if not (same or (not public and _derived(m, f, rv, p.ref))):
+                bad.append('erase does not return the pointer find produced (return at %s)' % r.loc())
+        elif found is False:
+            if ps.auto != 0:
+                bad.append('something is unlinked although find returned NULL (return at %s)' % r.loc())
+            if not (rv == 'null' or const_int(rv) == 0 or (isinstance(rv, str) and strip_bitcasts(f, rv) == p.ref)):
+                bad.append('erase does not return NULL when nothing was found (return at %s)' % r.loc())
+        else:
+            if ps.auto != 0 or not (isinstance(rv, str) and strip_bitcasts(f, rv) == p.ref):
+                bad.append('a path to the return at %s never tests what find returned: a found node is not unlinked, or a missing one is' % r.loc())
     if bad:
         rule.violation(f.name, '; '.join(sorted(set(bad))), floc(m, f), {})
     else:
-        rule.ok(f.name, 'p = find(); unlink(node(p)) under p != NULL; return p', floc(m, f))
+        rule.ok(f.name, 'p = find(); unlink(node(p)) exactly once under p != NULL; return p (NULL when absent)', floc(m, f))
 
 
 def _via_helper(f, o, root):
